@@ -45,7 +45,7 @@ def expr_rules(prefix: str, cols: list[str], free: int = 1):
 
 
 @functools.lru_cache(None)
-def exec_grammar(engine_extras: bool = False, opt_extras: bool = False) -> Grammar:
+def exec_grammar(engine_extras: bool = False, opt_extras: bool = False, limit_extras: bool = False) -> Grammar:
     rules = {}
     rules.update(expr_rules("s", ["a", "b"]))                      # single table x
     rules.update(expr_rules("j", ["x.a", "x.b", "y.b", "y.c"]))    # join context
@@ -120,6 +120,9 @@ def exec_grammar(engine_extras: bool = False, opt_extras: bool = False) -> Gramm
         q += [
             A("intersect_all", 1, "SELECT a FROM x INTERSECT ALL SELECT c FROM y"),
             A("except_all", 1, "SELECT a FROM x EXCEPT ALL SELECT c FROM y"),
+        ]
+    if limit_extras:
+        q += [
             # LIMIT / OFFSET without a total order: which rows come back is free, how many is not (judged by count and
             # containment in the unlimited result)
             A("lim.scan", 1, "SELECT a, b FROM x LIMIT 1"), A("lim.offset", 1, "SELECT a, b FROM x LIMIT 1 OFFSET 1"),
@@ -229,5 +232,5 @@ def exec_grammar(engine_extras: bool = False, opt_extras: bool = False) -> Gramm
 
 
 @functools.lru_cache(None)
-def queries(k: int, depth: int = 5, engine_extras: bool = False, opt_extras: bool = False) -> tuple:
-    return exec_grammar(engine_extras, opt_extras).enumerate("q", k, depth)
+def queries(k: int, depth: int = 5, engine_extras: bool = False, opt_extras: bool = False, limit_extras: bool = False) -> tuple:
+    return exec_grammar(engine_extras, opt_extras, limit_extras).enumerate("q", k, depth)
